@@ -147,6 +147,14 @@ pub fn run_c05(a: &Args, rep: &mut Report) {
         k += 1;
         rep.set("origins", origin);
         rep.set("vm_kinds", c.kind.name());
+        // one accepted program in eight is loaded from an unaligned address, its packet placed at
+        // the other end of the mapping and its metadata buffer mapped first
+        let c = if k % 8 == 5 {
+            rep.count("placement_variants");
+            c.with_placement(k as u8)
+        } else {
+            c
+        };
         let bufs = Bufs::new(&c);
         let ir = run_interp(&c, &bufs, C05_BUDGET, C05_BUDGET as usize);
         rep.case(Some(c.hash()));
